@@ -34,6 +34,8 @@ var c09MoreValues = []c09Value{
 	// text values with the field separator inside; a mixed-case CNAME target in both spellings
 	{"NOERROR;TXT;v=1; k=a", "TXT|v=1; k=a"}, {"NOERROR;TXT;v=1; k=b", "TXT|v=1; k=b"},
 	{"New.Example", "CNAME|New.Example"}, {"NOERROR;CNAME;New.Example", "CNAME|New.Example"},
+	// a number written with a leading zero is the same number
+	{"NOERROR;MX;010 mx.example", "MX|10 mx.example"},
 	// same priority, target and parameter count; one has a flag parameter (empty value) the other lacks
 	{"NOERROR;HTTPS;10 svc.example alpn=h2 no-default-alpn=", "HTTPS|10 svc.example alpn=h2 no-default-alpn="}, {"NOERROR;HTTPS;10 svc.example alpn=h2 port=8443", "HTTPS|10 svc.example alpn=h2 port=8443"},
 }
@@ -75,6 +77,9 @@ func c09Alphabet() (texts []string, nCore int) {
 	c09Syms["||example.org^$dnsrewrite"] = c09Sym{false, false, ""}
 	nCore = len(texts)
 	texts = append(texts, c09Texts(c09MoreValues)...)
+	// two different targets whose texts have equal 32-bit hashes
+	hA, hB := enum.CollidingHosts()
+	texts = append(texts, c09Texts([]c09Value{{hA, "CNAME|" + hA}, {hB, "CNAME|" + hB}})...)
 	return texts, nCore
 }
 
